@@ -378,7 +378,7 @@ pub fn run(ctx: &Ctx, rep: &mut Report) {
     }
     for n in 5..=7usize {
         let t0 = Instant::now();
-        let rots: Vec<usize> = if thorough { (0..n).collect() } else { vec![0, n / 2] };
+        let rots: Vec<usize> = if thorough { (0..n).collect() } else if n == 7 { vec![3] } else { vec![0, n / 2] };
         let accs = par_parts(53, |first| {
             let mut acc = Acc::new(1);
             let mut w = vec![0u32; n];
